@@ -26,7 +26,7 @@ from harness import common
 
 GEN_MODULES = ['params']
 MODEL_TARGETS = ['model/M_Params.vo']
-PROOF_TARGETS = ['proofs/P_ParamsInv.vo', 'proofs/P_ParamsViews.vo']
+PROOF_TARGETS = ['proofs/P_Params.vo', 'proofs/P_ParamsMap.vo']
 LEVEL = 'proof'
 RULE = ('operation sequences over {ParameterSet(), add_param front/back, map_param to model subsets with None / str / '
         'sequence aliases (incl. duplicate aliases, duplicate global names, wrong-length alias sequences, foreign and '
@@ -178,7 +178,6 @@ class PyWorld:
         self.sets = []
         self.label = {}        # id(Parameter) -> allocation number (= location of the model)
         self.keep = []         # keeps every labelled object alive so that ids stay unique
-        self.tainted = set()   # id(ParameterSet) whose Parameters were edited through another set
 
     def get(self, r):
         return self.pmm.global_paramset if r == 'G' else self.sets[r]
@@ -225,39 +224,29 @@ class PyWorld:
                 names = None if al is None else (nm(al[1]) if al[0] == 's' else [nm(a) for a in al[1]])
                 self.pmm.map_param(p, models=models, model_param_names=names)
                 self._alloc(p)
-            elif k in ('fix', 'float'):
-                s = self.get(op[1])
-                before = [(p.isfixed, p.initial, p.valmin, p.valmax, p.value) for p in s.params]
-                try:
-                    if k == 'fix':
-                        s.make_params_fixed({nm(n): (None if v is None else float(v)) for n, v in op[2]})
+            elif k == 'fix':
+                self.get(op[1]).make_params_fixed({nm(n): (None if v is None else float(v)) for n, v in op[2]})
+            elif k == 'float':
+                req = {}
+                for n, e in op[2]:
+                    if e is None:
+                        req[nm(n)] = None
+                    elif e[0] == 'i':
+                        req[nm(n)] = float(e[1])
                     else:
-                        req = {}
-                        for n, e in op[2]:
-                            if e is None:
-                                req[nm(n)] = None
-                            elif e[0] == 'i':
-                                req[nm(n)] = float(e[1])
-                            else:
-                                req[nm(n)] = tuple(None if x is None else float(x) for x in e[1:])
-                        s.make_params_floating(req)
-                finally:
-                    after = [(p.isfixed, p.initial, p.valmin, p.valmax, p.value) for p in s.params]
-                    if after != before:
-                        mine = {id(p) for p in s.params}
-                        for t in self.all_sets():
-                            if t is not s and any(id(p) in mine for p in t.params):
-                                self.tainted.add(id(t))
+                        req[nm(n)] = tuple(None if x is None else float(x) for x in e[1:])
+                self.get(op[1]).make_params_floating(req)
             elif k == 'union':
                 srcs = [self.get(r) for r in op[1]]
-                self.sets.append(ParameterSet.union(*srcs))
+                u = ParameterSet.union(*srcs)
+                for p in u.params:
+                    if id(p) not in self.label:
+                        self._alloc(p)
+                self.sets.append(u)
             elif k == 'copy':
-                s = self.get(op[1])
-                c = s.copy()
+                c = self.get(op[1]).copy()
                 for p in c.params:
                     self._alloc(p)
-                if id(s) in self.tainted:
-                    self.tainted.add(id(c))
                 self.sets.append(c)
             elif k == 'setv':
                 self.get(op[1]).params[op[2]].value = float(op[3])
